@@ -315,7 +315,7 @@ class Effects:
         self.memo[key] = res
         return res
 
-    def _modes(self, mode, env):
+    def _modes(self, mode, env, f=None):
         if mode is None:
             return ['r']
         if isinstance(mode, ast.Constant):
@@ -329,7 +329,38 @@ class Effects:
             ps = env.get(mode.id, ())
             if ps and all(p.startswith('const:') for p in ps):
                 return [p[6:] for p in ps]
+        if isinstance(mode, ast.Call) and isinstance(mode.func, ast.Name):
+            # open(path, mode_helper('r', binary)): the helper evaluated for its constant arguments, flags taken both ways
+            got = self._mode_fn(mode, f)
+            if got:
+                return got
         return ['?w']
+
+    def _mode_fn(self, call, fm):
+        import itertools
+        from .pyeval import Interp, Unsupported
+        if fm is None:
+            return None
+        s = fm.mod.syms.get(call.func.id)
+        g = self.prog.funcs.get(s.target) if s is not None and s.kind == 'func' else None
+        if g is None:
+            return None
+        slots = []
+        for a in list(call.args) + [k.value for k in call.keywords]:
+            slots.append([a.value] if isinstance(a, ast.Constant) else [True, False])
+        names = [None] * len(call.args) + [k.arg for k in call.keywords]
+        out = set()
+        try:
+            for combo in itertools.product(*slots):
+                pos = [v for v, nm in zip(combo, names) if nm is None]
+                kw = {nm: v for v, nm in zip(combo, names) if nm is not None}
+                r = Interp(self.prog).call(g, pos, kw)
+                if not isinstance(r, str):
+                    return None
+                out.add(r)
+        except Unsupported:
+            return None
+        return sorted(out)
 
     def _analyse(self, f, ctx):
         prog = self.prog
@@ -346,7 +377,7 @@ class Effects:
                 for k in n.keywords:
                     if k.arg == 'mode':
                         mode = k.value
-                ms = self._modes(mode, env)
+                ms = self._modes(mode, env, f)
                 if any(is_write_mode(m) or m == '?w' for m in ms) and n.args:
                     effects.append(Effect('open-write', self.prov(n.args[0], env, f, ctx), guards, f, n))
                 return
